@@ -3,8 +3,9 @@
 
   `Format.lean` models the ten kinds Integer … Hash under maps keyed by the 16 parameterless default types.  This file
   adds (file func → definition), the code AS IT IS NOW:
-    types/semvertype.go       SemVer.ToString          → `fmtSemVer`      (`s` with the string flags, `#s` quoted; `p` = SemVer('…'): flags ignored)
-    types/semverrangetype.go  SemVerRange.ToString     → `fmtSemVerRange` (`p`, `s`; `#` = the normalized text; flags ignored by both)
+    types/semvertype.go       SemVer.ToString          → `fmtSemVer`      (`s` with the string flags, `#s` quoted; `p` = SemVer('…') with the
+                                                                           string flags — after fix 5c2f826)
+    types/semverrangetype.go  SemVerRange.ToString     → `fmtSemVerRange` (`p`, `s`; `#` = the normalized text; both with the string flags)
     types/uritype.go          UriValue.ToString        → `fmtUri`         (as SemVer, `URI('…')`)
     types/timespantype.go     Timespan.ToString        → `fmtTspan`       (DefaultTimespanFormats[0].format2: the context is ignored; the
                                                                            text is `Pcore.Ser.printSpan`, Model/SpanCodec.lean)
@@ -89,19 +90,19 @@ structure XLetterRow where
 /-- `SemVer.ToString` -/
 def fmtSemVer (f : Fmt) (text : Str) : Res :=
   if f.letter = 's' then .text (applyStringFlags f text f.alt)
-  else if f.letter = 'p' then .text ("SemVer(".toList ++ puppetQuote text ++ [')'])
+  else if f.letter = 'p' then .text (applyStringFlags f ("SemVer(".toList ++ puppetQuote text ++ [')']) false)
   else .reported .unsupported
 
 /-- `SemVerRange.ToString` -/
 def fmtSemVerRange (f : Fmt) (text norm : Str) : Res :=
-  if f.letter = 'p' then .text ("SemVerRange(".toList ++ puppetQuote (if f.alt then norm else text) ++ [')'])
-  else if f.letter = 's' then .text (if f.alt then norm else text)
+  if f.letter = 'p' then .text (applyStringFlags f ("SemVerRange(".toList ++ puppetQuote (if f.alt then norm else text) ++ [')']) false)
+  else if f.letter = 's' then .text (applyStringFlags f (if f.alt then norm else text) false)
   else .reported .unsupported
 
 /-- `UriValue.ToString` -/
 def fmtUri (f : Fmt) (text : Str) : Res :=
   if f.letter = 's' then .text (applyStringFlags f text f.alt)
-  else if f.letter = 'p' then .text ("URI(".toList ++ puppetQuote text ++ [')'])
+  else if f.letter = 'p' then .text (applyStringFlags f ("URI(".toList ++ puppetQuote text ++ [')']) false)
   else .reported .unsupported
 
 /-- `Timespan.ToString`: the default format `%D-%H:%M:%S.%-N`, whatever the context says -/
